@@ -7,6 +7,7 @@ import (
 	"crypto/sha256"
 	"encoding/hex"
 	"fmt"
+	"math"
 	"math/big"
 	"os"
 	"strings"
@@ -201,7 +202,33 @@ func toMParams(p ParamsSpec) MParams {
 	return MParams{toMCoins(p.CreationFee), toMCoins(p.BidFee), p.ExtPeriod}
 }
 
-func tUTC(ns int64) time.Time { return time.Unix(0, ns).UTC() }
+// Instants are int64 nanoseconds in schedules, model and snapshots. Unix nanoseconds in an int64 end in
+// the year 2262; the module's messages accept any protobuf timestamp (up to the year 9999). Values at or
+// above FarBaseNs stand for the instants from 2300-01-01T00:00:00Z on, one to one, so that an auction
+// scheduled centuries ahead - legal, and never reached by any block of a run - can be expressed, ordered
+// and compared like every other instant.
+const FarBaseNs = int64(9_000_000_000_000_000_000)
+
+var farBaseTime = time.Date(2300, 1, 1, 0, 0, 0, 0, time.UTC)
+
+func tUTC(ns int64) time.Time {
+	if ns >= FarBaseNs {
+		return farBaseTime.Add(time.Duration(ns - FarBaseNs))
+	}
+	return time.Unix(0, ns).UTC()
+}
+
+// nsOf is the inverse of tUTC (time.Time.UnixNano is undefined beyond 2262).
+func nsOf(t time.Time) int64 {
+	if !t.Before(farBaseTime) {
+		d := t.Sub(farBaseTime) // saturates at about 292 years
+		if d > time.Duration(math.MaxInt64-FarBaseNs) {
+			return math.MaxInt64
+		}
+		return FarBaseNs + int64(d)
+	}
+	return t.UnixNano()
+}
 
 func toSdkCoin(c *Coin) sdk.Coin {
 	amt, ok := sdkmath.NewIntFromString(c.Amount)
